@@ -137,8 +137,8 @@ def key(case) -> str:
     k = case.get("kind", "engine")
     d = case.get("decimals")
     if k == "edge-blank":
-        # F14 is exactly: the second export is the first with the white space at the two ends of the text removed
-        return "F14-edge-blank" if case.get("observed") == "ends-stripped" else f"edge-blank:{case.get('observed')}"
+        # F16 is exactly: the second export is the first with the white space at the two ends of the text removed
+        return "F16-edge-blank" if case.get("observed") == "ends-stripped" else f"edge-blank:{case.get('observed')}"
     if k == "engine":
         zs = sorted({cls for h, cls in G.heights_and_weights(case["spec"]) if f11_zone(h, d)})
         if zs:
@@ -378,7 +378,7 @@ def oracle_engine(case, d):
 def oracle_edge_blank(case, d):
     """descriptions / formulas that begin or end with white space (single-line, without '#': inside the quantifier).
     Returns (ok, detail, observed) where `observed` classifies what happened to the text: 'same' (round trip holds),
-    'ends-stripped' (the second export is the first with the ends of that text stripped: known finding F14), or 'other'"""
+    'ends-stripped' (the second export is the first with the ends of that text stripped: known finding F16), or 'other'"""
     e = G.build(case["spec"])
     t1 = export(e)
     try:
@@ -849,7 +849,7 @@ def correspond(ctx):
 
     for case in engine_cases(ctx):
         engine_case(case)
-    # ---- texts with white space at their ends (known finding F14: classified by what exactly happens to the text)
+    # ---- texts with white space at their ends (known finding F16: classified by what exactly happens to the text)
     for case in edge_blank_cases(ctx):
         with fl.settings.context(decimals=case["decimals"]), np.errstate(all="ignore"):
             ok, detail, observed = oracle_edge_blank(case, case["decimals"])
